@@ -210,6 +210,7 @@ class Pipe(c11.World):
         self.to_watch = list()
 
         # -- subscriptions -----------------------------------------------------
+        self.fault_bulk   = set()        # uids of a bulk whose worker raised
         self.client_fifos = dict()       # pub_id -> [state messages]
         self.ctl_pending  = dict()       # component name -> [messages]
         self.unsched_fifo = list()
@@ -428,6 +429,9 @@ class Pipe(c11.World):
             head = (self.net.queues.get(qname) or [[]])[0]
             if any(t['uid'] == self.scn.get('fault_uid') for t in head):
                 saved = dict(c._workers)
+                # a failing work routine fails its whole bulk
+                self.fault_bulk = self.fault_bulk | \
+                                  set(t['uid'] for t in head)
 
                 def bad(things):
                     raise RuntimeError('injected work() failure')
@@ -532,7 +536,8 @@ class Pipe(c11.World):
                 tuple(clist(name) for name in self.CTL_TARGETS),
                 tuple(t['uid'] for m in self.unsched_fifo
                       for t in ru.as_list(m)),
-                client, len(self.submitted), self.cancel_sent)
+                client, len(self.submitted), self.cancel_sent,
+                tuple(sorted(self.fault_bulk)))
 
     # ----------------------------------------------------------------------
     def client_outcomes(self, limit=200000, drops=1):
